@@ -239,6 +239,25 @@ class Ctx:
                 key = (m["kind"], case_key(m["case"]))
                 g = groups.setdefault(key, {"case": m["case"], "kind": m["kind"], "detail": m["detail"], "n": 0, "from": case})
                 g["n"] += 1
+        # A witness that matches no recorded finding is minimised once more from where the first minimisation stopped (fresh
+        # process) before it is reported: a shrink step lost to a transient failure (time limit under heavy machine load) leaves a
+        # non-minimal witness, and findings are recorded by their minimal witness.  A violation that is not a recorded finding
+        # stays one - its witness can only get smaller.
+        if findings and groups:
+            retry = [g for (kind, key), g in sorted(groups.items()) if match_finding(findings, kind, key) is None]
+            if retry:
+                res = pmap(_minimise, [(g["case"], {"kind": g["kind"], "detail": g["detail"]}) for g in retry],
+                           args=(evaluate, shrink, case_key, args), chunk=2)
+                for g, (_, m) in zip(retry, res):
+                    if m.get("reproduced") and case_key(m["case"]) != case_key(g["case"]):
+                        old = (g["kind"], case_key(g["case"]))
+                        new = (m["kind"], case_key(m["case"]))
+                        groups.pop(old, None)
+                        if new in groups:
+                            groups[new]["n"] += g["n"]
+                        else:
+                            g["case"], g["detail"] = m["case"], m["detail"]
+                            groups[new] = g
         nviol = 0
         known = 0
         known_hits = {}
